@@ -425,14 +425,14 @@ def gen_cases(ctx):
     # E: two queries
     fams["E"] = list(family([rep("K"), rep("L")], [rep("R"), RESET, qry("now"), qry("tick")], [2, 2, 3, 3], setups[1])) if not quick else []
     cases, dist = [], {}
-    take = {"A": None, "B": 150, "C": 150, "D": 120, "E": 0} if quick else {"A": None, "B": None, "C": None, "D": 3000, "E": 3000}
+    take = {"A": None, "B": 300, "C": 300, "D": 200, "E": 0} if quick else {"A": None, "B": None, "C": None, "D": 3000, "E": 3000}
     for name, lst in fams.items():
         k = take[name]
         sel = lst if k is None or k >= len(lst) else rng.sample(lst, k)
         dist["family_" + name] = {"selected": len(sel), "of": len(lst)}
         cases += sel
     # random general scenarios
-    nrand = 250 if quick else 3000
+    nrand = 400 if quick else 3000
     qkinds = ["now", "now", "const:0", "const:-7", "const:%d" % FUTURE, "tick", "tick+1", "tick-1"]
     for _ in range(nrand):
         tasks = [rep("R"), rep("K"), rep("L")]
@@ -557,12 +557,19 @@ def chunked_driver(binary, scenarios, cdir, chunk=400):
 
 # ------------------------------------------------------------------------------------------------
 def run(ctx):
-    vplib.gen_consts(ctx)
-    proofs_ok, detail = vplib.check_proofs(ctx)
+    translator_failure = None
+    try:
+        vplib.gen_consts(ctx)
+        proofs_ok, detail = vplib.check_proofs(ctx)
+    except vplib.Violation as v:
+        # the constants the model needs are gone: no model run is possible, but the property itself
+        # can still be evaluated on the code's behaviour (search for a failing input, DESIGN 1.4)
+        translator_failure = v
+        proofs_ok, detail = False, "constants translator failed: %s" % v
     ctx.log("proofs:", proofs_ok, detail[:200])
     bins = vplib.cargo_build(ctx, "harness", ["c16"])
-    ints, strs = consts()
-    limit = ints["max_status_message_length"]
+    with_model = translator_failure is None
+    strs, limit = {}, 1024
     cdir = os.path.join(ctx.scratch, "c16")
     os.makedirs(os.path.join(cdir, "bin"), exist_ok=True)
     binary = os.path.join(cdir, "bin", "c16")   # private copy: proxy-agent.json is written beside the exe
@@ -591,9 +598,16 @@ def run(ctx):
     impl = chunked_driver(binary, cases, cdir)
     ctx.log("driver: %.1fs" % (time.time() - t0))
     t0 = time.time()
-    exprs = [coq_observe(var, sc) for sc in cases]
-    model = vplib.coq_eval(ctx, REQUIRES,
-                           exprs, prelude=PRELUDE, shard=max(40, len(exprs) // 15 + 1), timeout=1500)
+    model = [None] * len(cases)
+    if with_model:
+        try:
+            model = vplib.coq_eval(ctx, REQUIRES, [coq_observe(var, sc) for sc in cases], prelude=PRELUDE,
+                                   shard=max(40, len(cases) // 15 + 1), timeout=1500)
+        except RuntimeError as e:
+            if proofs_ok:
+                raise
+            with_model = False          # the model no longer compiles; already reported through proofs_ok
+            ctx.notes.append("model not evaluable: %s" % str(e)[-300:])
     ctx.log("model: %.1fs" % (time.time() - t0))
     nontrivial = set()
     n_stale = n_fin = n_nonempty = 0
@@ -602,14 +616,16 @@ def run(ctx):
         if "steps" not in out:
             disagreements.append({"case": sc, "impl": out, "model": "n/a"})
             continue
-        cm, ghost = canon_model(sc, mo, var)
         ci = canon_impl(sc, out, var)
-        if cm != ci:
-            diff = [k for k in cm if cm[k] != ci[k]]
-            disagreements.append({"case": sc, "differs_in": diff, "model": {k: cm[k] for k in diff}, "impl": {k: ci[k] for k in diff}})
         fails, stale = property_failures(sc, out, var, strs, limit)
-        if stale != ghost["stale"] and cm == ci:
-            disagreements.append({"case": sc, "differs_in": ["stale-stamp class"], "model": ghost["stale"], "impl": stale})
+        cm = ci
+        if with_model:
+            cm, ghost = canon_model(sc, mo, var)
+            if cm != ci:
+                diff = [k for k in cm if cm[k] != ci[k]]
+                disagreements.append({"case": sc, "differs_in": diff, "model": {k: cm[k] for k in diff}, "impl": {k: ci[k] for k in diff}})
+            elif stale != ghost["stale"]:
+                disagreements.append({"case": sc, "differs_in": ["stale-stamp class"], "model": ghost["stale"], "impl": stale})
         for f in fails:
             failures.append(dict(f, case=sc, impl={"results": out["results"], "steps": [(s["tid"], s["flags"], s["tick"]) for s in out["steps"]]}))
         n_stale += stale
@@ -627,19 +643,20 @@ def run(ctx):
     https = gen_http(ctx)
     hout = chunked_driver(binary, https, os.path.join(cdir, "http"), chunk=max(5, len(https) // 6 + 1))
     hmodels = [http_to_model(sc) for sc in https]
-    hexprs = [coq_observe(var, m) for m in hmodels]
-    hmodel = vplib.coq_eval(ctx, REQUIRES,
-                            hexprs, prelude=PRELUDE, shard=max(10, len(hexprs) // 12 + 1), timeout=1500, name="http")
+    hmodel = [None] * len(https)
+    if with_model:
+        hmodel = vplib.coq_eval(ctx, REQUIRES, [coq_observe(var, m) for m in hmodels], prelude=PRELUDE,
+                                shard=max(10, len(https) // 12 + 1), timeout=1500, name="http")
     n_http_q = 0
     for sc, out, msc, mo in zip(https, hout, hmodels, hmodel):
         if "steps" not in out:
             disagreements.append({"case": sc, "impl": out, "model": "n/a"})
             continue
-        cmh, _gh = canon_model(msc, mo, var)
+        cmh = canon_model(msc, mo, var)[0] if with_model else None
         msgs = {m: sc["setup"].get("msgs", {}).get(m, UNKNOWN_MSG) for m in "RKL"}
         for i, (o, s) in enumerate(zip(sc["ops"], out["steps"])):
             mi = i + 1                               # model task index (task 0 = the listener's own report)
-            mfl = cmh["steps"][(mi + 1) * MAXP - 1][0]   # flags after that op completed
+            mfl = cmh["steps"][(mi + 1) * MAXP - 1][0] if cmh else s["flags"]   # flags after that op completed
             if s["flags"] != mfl:
                 disagreements.append({"case": sc, "op_index": i, "model_flags": mfl, "impl_flags": s["flags"]})
                 break
@@ -653,7 +670,7 @@ def run(ctx):
                 if res.get("status") != 400:
                     failures.append({"case": sc, "why": "/provision without Metadata header answered %r instead of 400" % (res,), "kind": "http"})
                 continue
-            mr = cmh["results"][mi]
+            mr = cmh["results"][mi] if cmh else {"fin": res.get("finished"), "err": res.get("err")}
             got = (res.get("finished"), res.get("err"))
             if got != (mr["fin"], mr["err"]):
                 disagreements.append({"case": sc, "op_index": i, "op": o, "model": (mr["fin"], mr["err"]), "impl": got,
@@ -681,7 +698,7 @@ def run(ctx):
     ctx.log("http leg: %d scenarios, %d /provision requests" % (len(https), n_http_q))
 
     # ---------------- strace leg: syscall order and kill points of write_provision_state ----------------
-    strace_info = strace_leg(ctx, binary, cdir, strs, limit, var, disagreements, failures)
+    strace_info = strace_leg(ctx, binary, cdir, strs, limit, var, disagreements, failures, with_model)
 
     # ---------------- threads leg (F11) ----------------
     iters = 80 if ctx.quick else 1500
@@ -742,13 +759,15 @@ def run(ctx):
                     "a reader saw status.tag empty or mixed although no writer wrote that")
         return None
 
+    if translator_failure is not None and not [f for f in failures if not known_filter(f)]:
+        raise translator_failure
     verdict(ctx, proofs_ok, detail, disagreements, failures, known_filter,
             corr_name="Provision.observe (model, variant %s) vs hand-polled provision.rs futures / the /provision handler / strace of write_provision_state" % var)
     ctx.coverage["known_finding_instances"] = counts
 
 
 # ------------------------------------------------------------------------------------------------
-def strace_leg(ctx, binary, cdir, strs, limit, var, disagreements, failures):
+def strace_leg(ctx, binary, cdir, strs, limit, var, disagreements, failures, with_model=True):
     info = {"runs": 0}
     if shutil.which("strace") is None:
         info["skipped"] = "strace not installed"
@@ -802,11 +821,14 @@ def strace_leg(ctx, binary, cdir, strs, limit, var, disagreements, failures):
             disagreements.append({"case": sc, "differs_in": ["syscall sequence of write_provision_state"],
                                   "model": ["openat(tmp,O_TRUNC)", "write", "close", "rename(tmp,tag)"], "impl": names, "tag": rd(tag)})
     # (b) SIGKILL on entry of each of those syscalls: the model's crash prefixes
+    if not with_model:
+        pref = [(old, None), (old, ""), (old, new), (new, None)]
     n = len(new.encode())
-    pref = vplib.coq_eval(ctx, "From Coq Require Import List NArith ZArith.\nImport ListNotations.\nFrom GPA Require Import Provision.",
+    pref = pref if not with_model else vplib.coq_eval(ctx, "From Coq Require Import List NArith ZArith.\nImport ListNotations.\nFrom GPA Require Import Provision.",
                           ["map (fun n => let c := prun %s (start %s (init_world true (set_msg default_msgs MKeyKeeper %s) %s (Some %s)) [OpTimeup]) (repeat 0%%nat n) in (tag_content (shared c), tmp_content (shared c))) [10%%nat; 11%%nat; %d%%nat; %d%%nat]"
                            % (coq_variant(var), coq_variant(var), cb(msg), cb("Unknown"), cb(old), 11 + n, 12 + n)], name="crash")[0]
-    pref = [(b2s(a), b2s(b)) for a, b in pref]
+    if with_model:
+        pref = [(b2s(a), b2s(b)) for a, b in pref]
     expect = {"openat": pref[0], "write": pref[1], "close": pref[2], "rename": pref[2]}
     info["model_crash_prefixes"] = pref
     if pref[3] != (new, None):
